@@ -1,9 +1,14 @@
 (* C03 — Direct subscribers see every notifying action once, in order, with its state.
-   Statements only; proofs in PipelineProofs.v.
-   C03_partial: the per-action statement is proved for every configuration; the stream over a
-   whole run (the concatenation over the reduced actions) is checked by the lockstep
-   correspondence and the C03 monitor, not yet stated as a theorem over histories. *)
-From RS Require Import Base Pipeline PipelineProofs.
+   Statements only; proofs in PipelineProofs.v, WorldNotify.v, WorldSnap.v.
+   Per action (C03_notify_pure_partial, every configuration): who is called, with what.
+   Over a whole run, every schedule (C03_stream): the calls made in the reducer context are,
+   snapshot by snapshot and in the order of the snapshot, exactly one call per direct subscriber
+   of that snapshot, with the snapshot's action and state - no gap, no repeat, no reordering.
+   Which actions get a snapshot (C03_snapshots, programs without runtime registration of reducers
+   or middlewares): exactly the write-backs whose chain asked to notify and that no
+   before_dispatch hook suppressed, in reduce order, each with the state that action produced.
+   What a snapshot contains is the registry at that moment (C09_registry). *)
+From RS Require Import Base Pipeline PipelineProofs Channel Script World Hist WorldFold WorldNotify WorldSnap.
 
 Section C03.
 Context {State Action Eff : Type}.
@@ -28,5 +33,28 @@ Theorem C03_last_reducer_decides : forall (rs : list (reducer State Action Eff))
 Proof. intros. rewrite run_reducers_spec. reflexivity. Qed.
 End C03.
 
+Section C03_world.
+Context {State : Type}.
+Variable cfg : wconfig (State := State).
+
+(* every reachable world, any program, any schedule: calls made (oldest first) ++ calls of the
+   current snapshot still to be made = what the snapshots taken so far owe, where a snapshot
+   (a, s, snap) owes one call (sid, s, a) per direct subscriber sid of snap, in snap's order *)
+Theorem C03_stream : forall reducers mws progs w pc, length progs <= 100 ->
+  reachable cfg reducers mws progs w ->
+  get_thread (w_threads w) reducer_tid = Some (TReducer pc) ->
+  rev (owed (w_hist w)) = rev (delivs (w_hist w)) ++ pending pc.
+Proof. intros reducers mws progs w pc L R G. exact (notify_stream cfg reducers mws progs w pc L R G). Qed.
+
+(* the snapshots (action, state), newest first, are the notifying write-backs *)
+Theorem C03_snapshots : forall RS0 MS0 progs w pc, length progs <= 100 ->
+  Forall (Forall static_call) progs -> reachable cfg RS0 MS0 progs w ->
+  get_thread (w_threads w) reducer_tid = Some (TReducer pc) -> ~ in_window pc ->
+  snaps (w_hist w) = noted cfg RS0 MS0 (writes (w_hist w)).
+Proof. intros RS0 MS0 progs w pc L SP R G NW. exact (snapshots_are_notifying cfg RS0 MS0 progs w pc L SP R G NW). Qed.
+End C03_world.
+
 Print Assumptions C03_notify_pure_partial.
+Print Assumptions C03_stream.
+Print Assumptions C03_snapshots.
 Print Assumptions C03_last_reducer_decides.
